@@ -45,7 +45,9 @@ OrdCatalog == <<
   \* rewrite-sandwich
   << << O(<<T("rs"), ST>>, << O(<<T("term"), ST>>, << O(<<T("then")>>, <<>>), O(<<T("from")>>, <<>>) >>) >>) >> >>,
   \* slash-key
-  << << O(<<T("a"), ST>>, <<>>), O(<<T("port"), ST>>, <<>>) >> >>
+  << << O(<<T("a"), ST>>, <<>>), O(<<T("port"), ST>>, <<>>) >> >>,
+  \* negated-form
+  << << O(<<T("blk"), ST>>, <<>>), O(<<T("a"), ST>>, <<>>) >> >>
 >>
 \* disjointness of sibling languages over the instance universe of the patching catalogue (domain assumption of C08)
 RECURSIVE AllInst(_)
